@@ -3,13 +3,10 @@
 #include <stdlib.h>
 #include "adapter.h"
 #include "lib_common/of_openfec_api.h"
-#include "lib_common/of_rand.h"
-#include "lib_stable/ldpc_staircase/of_ldpc_includes.h"
 
 volatile int g_in_lib = 0;
 volatile int g_cur_ses = -1;
 
-extern UINT64 of_seed;   /* src/lib_common/of_rand.c */
 
 #define ENTER(sid) int _prev_ses = g_cur_ses; g_cur_ses = (sid); g_in_lib++
 #define LEAVE() g_in_lib--; g_cur_ses = _prev_ses
@@ -17,10 +14,8 @@ extern UINT64 of_seed;   /* src/lib_common/of_rand.c */
 void ad_global_reset(uint64_t scramble)
 {
     of_verbosity = 0;
-    of_rfc5170_srand(scramble);
+    shim_scramble_prng(scramble);
 }
-
-uint64_t ad_peek_of_seed(void) { return (uint64_t)of_seed; }
 
 int ad_create(void **ses, int codec, int role, int sid)
 {
@@ -167,38 +162,24 @@ static uint64_t g_rand_calls = 0;
 void ad_set_rand_stream(uint64_t seed) { g_rand_state = seed * 2 + 1; }
 uint64_t ad_rand_calls(void) { return g_rand_calls; }
 
+static uint64_t next_rand(void);
+long __wrap_random(void) { return (long)(next_rand() & 0x7fffffff); }
+long __wrap_lrand48(void) { return (long)(next_rand() & 0x7fffffff); }
+double __wrap_drand48(void) { return (double)(next_rand() & 0x7fffffff) / 2147483648.0; }
+int __wrap_rand_r(unsigned int *s) { (void)s; return (int)(next_rand() & 0x7fffffff); }
+
 int __wrap_rand(void)
+{
+    return (int)(next_rand() & 0x7fffffff);
+}
+
+static uint64_t next_rand(void)
 {
     g_rand_calls++;
     g_rand_state ^= g_rand_state << 13;
     g_rand_state ^= g_rand_state >> 7;
     g_rand_state ^= g_rand_state << 17;
-    return (int)((g_rand_state >> 17) & 0x7fffffff);
-}
-
-/* ---- white-box shim ------------------------------------------------------------------------- */
-int shim_pchk_walk(void *ses, shim_entry_fn fn, void *ctx)
-{
-    of_cb_t *cb = (of_cb_t *)ses;
-    if (cb->codec_id != OF_CODEC_LDPC_STAIRCASE_STABLE)
-        return -1;
-    of_ldpc_staircase_cb_t *l = (of_ldpc_staircase_cb_t *)ses;
-    if (l->pchk_matrix == NULL)
-        return -1;
-    UINT32 row;
-    of_mod2entry *e;
-    for (row = 0; row < l->nb_repair_symbols; row++) {
-        for (e = of_mod2sparse_first_in_row(l->pchk_matrix, row); !of_mod2sparse_at_end(e); e = of_mod2sparse_next_in_row(e)) {
-            fn(ctx, row, (uint32_t)of_get_symbol_esi((of_cb_t *)l, e->col));
-        }
-    }
-    return 0;
-}
-
-int shim_extra_entries(void *ses)
-{
-    of_ldpc_staircase_cb_t *l = (of_ldpc_staircase_cb_t *)ses;
-    return l->extra_entries_added_in_pchk ? 1 : 0;
+    return g_rand_state >> 17;
 }
 
 /* one throw-away codec-1 encode so that the lazily built GF(2^8) tables exist ("warm" process) */
